@@ -1,7 +1,7 @@
 SPECIFICATION Spec
 CONSTANTS MsgSrc <- S3  MsgMid <- M3  MsgTot <- T3  CapSrc = 2  CapAll = 3  MaxDeliv = 3  MaxTick = 4
   GridP <- GP1  GridMM <- GM1
-  DecOnComplete = TRUE  DupCheck = TRUE  TotalCheck = TRUE  CapStrict = TRUE  GcOn = FALSE
+  DecOnComplete = TRUE  DupCheck = TRUE  TotalCheck = TRUE  CapStrict = TRUE  GcOn = FALSE  IdEarly = TRUE
 INVARIANT NoViolation
 
 VIEW View
